@@ -21,7 +21,16 @@ pub struct InputEvent {
 impl InputEvent {
     pub fn text_string(&self) -> Option<String> {
         match &self.event {
-            Event::Text(t) => Some(String::from_utf8(t.to_vec()).expect("utf8")),
+            // Text events hold the raw (still escaped) input; this value is used
+            // as an attribute value, which are held unescaped.
+            Event::Text(t) => {
+                let raw = String::from_utf8(t.to_vec()).expect("utf8");
+                Some(
+                    quick_xml::escape::unescape(&raw)
+                        .map(|s| s.into_owned())
+                        .unwrap_or(raw),
+                )
+            }
             _ => None,
         }
     }
@@ -301,7 +310,8 @@ pub fn tagify_events(events: InputList) -> Result<Vec<Tag>> {
             Event::CData(c) => {
                 let text = String::from_utf8(c.to_vec())?;
                 if let Some(t) = tags.last_mut() {
-                    t.set_text(text)
+                    // becomes (escaped) text following the previous tag
+                    t.set_text(quick_xml::escape::escape(text.as_str()).into_owned())
                 } else {
                     tags.push(Tag::CData(text));
                 }
@@ -444,8 +454,10 @@ impl OutputList {
                 text_buf.push_str(content);
                 continue;
             } else if !text_buf.is_empty() {
+                // Note `OutputEvent::Text` content is already escaped: text from the
+                // input is kept as written, generated text is escaped when created.
                 let content = Self::blank_line_remover(&text_buf);
-                let text_event = Event::Text(BytesText::new(&content).into_owned());
+                let text_event = Event::Text(BytesText::from_escaped(content));
                 text_buf.clear();
                 writer
                     .write_event(text_event)
@@ -456,7 +468,7 @@ impl OutputList {
         // re-add any trailing text
         if !text_buf.is_empty() {
             let content = Self::blank_line_remover(&text_buf);
-            let text_event = Event::Text(BytesText::new(&content).into_owned());
+            let text_event = Event::Text(BytesText::from_escaped(content));
             writer
                 .write_event(text_event)
                 .map_err(SvgdxError::from_err)?;
